@@ -41,12 +41,49 @@ def run(ctx):
                                                     "temporary_files_left_behind", "same_seed_same_model", "fit_returns_self",
                                                     "transform_changed_the_model"),
                       nontrivial=lambda j: len(j["history"]) >= 3)
+    pools(ctx, jobs, rng)
     ctx.exhaustive = False
     return ctx.finish(
         level="model_checking",
         rule="one case per (estimator, configuration, call history fit(b0); transform(b1); ...) generated from Protocol.tla, "
              "replayed into the real estimator and accepted step by step by Trace_Protocol.tla (memo: the row of an item under "
              "a fitted model is a function of the item); non-trivial = at least two transforms after the fit")
+
+
+def pools(ctx, jobs, rng):
+    """thread-pool sizes: the same histories under NUMBA_NUM_THREADS = 1 and 16 must produce the same row VALUES"""
+    import numpy as np
+    sub = [dict(j, return_values=True) for j in rng.sample(jobs, min(len(jobs), ctx.pick(60, 600)))]
+    sub.sort(key=lambda j: (j["adapter"], j["cfg"]))
+    runs = {}
+    for nt in ("1", "16"):
+        runs[nt] = pool_map("proto", "run_history", sub, env={"NUMBA_NUM_THREADS": nt}, min_chunk=max(3, len(sub) // 12), timeout=3000)
+    for j, a, b in zip(sub, runs["1"], runs["16"]):
+        ctx.evaluations += 1
+        ident = {"part": "thread_pool_size", "adapter": j["adapter"], "cfg": j["cfg"], "history": [[c["op"], c["b"], c["knob"]] for c in j["history"]]}
+        if a is None or b is None or "crash" in a or "crash" in b or "exc" in a or "exc" in b:
+            ctx.violation(dict(ident, kind="crash-or-exception"), {"job": j, "one_thread": a, "sixteen_threads": b})
+            continue
+        cls = _all()[j["adapter"]]
+        bad = None
+        for k, (sa, sb) in enumerate(zip(a["steps"], b["steps"])):
+            va, vb = sa["o"].get("vals"), sb["o"].get("vals")
+            if (va is None) != (vb is None) or (va is not None and len(va) != len(vb)):
+                bad = k
+                break
+            for x, y in zip(va or [], vb or []):
+                if isinstance(x, str) or isinstance(y, str):
+                    if x != y:
+                        bad = k
+                elif len(x) != len(y) or not np.allclose(np.array(x), np.array(y), rtol=max(cls.rtol, 1e-7), atol=max(cls.atol, 1e-9), equal_nan=True):
+                    bad = k
+            if bad is not None:
+                break
+        if bad is not None:
+            ctx.violation(dict(ident, kind="rows depend on the thread-pool size", step=bad + 1), {"job": j})
+        else:
+            ctx.traces += 1
+            ctx.count("pool_size_pairs_equal")
 
 
 def _has_lot():
